@@ -15,6 +15,17 @@ from .mir2smt import Adt, Opaque, Ref, Unsupported
 
 VERIF = os.path.dirname(os.path.dirname(os.path.abspath(__file__)))
 WORK = os.environ.get("VERIF_WORK", os.path.join(VERIF, ".work"))
+
+
+def replays_dir(prop):
+    """counterexamples of the registered commands go to /verif/replays/<id>, those of experiments
+    (scratch repository, other work directory) to the scratch work directory"""
+    if os.environ.get("VERIF_WORK") or os.environ.get("VERIF_REPO"):
+        d = os.path.join(WORK, "replays", prop)
+    else:
+        d = os.path.join(VERIF, "replays", prop)
+    os.makedirs(d, exist_ok=True)
+    return d
 REPO = os.environ.get("VERIF_REPO", "/repo")
 ENV = dict(os.environ, CARGO_NET_OFFLINE="true")
 
@@ -494,7 +505,7 @@ def run_c19_full(prop, mir, log, tier):
             continue
         rp = replay_c19(nm, model, log)
         if rp is True:
-            path = os.path.join(VERIF, "replays", "C19", re.sub(r"\W+", "_", nm)[:40] + ".json")
+            path = os.path.join(replays_dir("C19"), re.sub(r"\W+", "_", nm)[:40] + ".json")
             os.makedirs(os.path.dirname(path), exist_ok=True)
             json.dump({"query": nm, "model": model, "replay_cmd": "vcheck.py C19 --replay " + path}, open(path, "w"), indent=1)
             print("VIOLATION property=C19 replay=%s" % path)
@@ -897,10 +908,16 @@ def run_c07_full(prop, mir, log, tier):
     # a concrete program whose real run exceeds its own static bound (or dies in the machine) is a
     # violation of the property itself, demonstrated on the real code; it is reported as such
     if "error" not in nat:
-        over = [pr for pr in nat["programs"] if pr.get("panicked") or pr["max_cells"] - pr["io_cells"] > pr["extra_cells"]
-                or max(0, pr["max_frames"] - pr["io_frames"]) > pr["extra_frames"]]
+        nat2 = native(["peaks_with_input"])
+        if "error" in nat2:
+            log("  native input family could not run: %s" % nat2["error"][:300])
+            exit_code = 2
+        else:
+            validated += len(nat2["programs"])
+            log("  native input family: %d programs run on the real machine sized by for_program" % len(nat2["programs"]))
+        over = [pr for pr in nat["programs"] + nat2.get("programs", []) if over_bound(pr)]
         if over:
-            path = os.path.join(VERIF, "replays", "C07", "native_family_exceeds_bound.json")
+            path = os.path.join(replays_dir("C07"), "native_family_exceeds_bound.json")
             os.makedirs(os.path.dirname(path), exist_ok=True)
             json.dump({"query": "L0 native program family stays within its static bounds", "programs": over[:5],
                        "replay_cmd": "vreplay peaks (replay/src/main.rs)"}, open(path, "w"), indent=1)
@@ -920,7 +937,7 @@ def run_c07_full(prop, mir, log, tier):
             print("KNOWN-FINDING: property=C07 %s [%s]" % (k[0]["what"], k[0]["id"]))
             continue
         if rp is True:
-            path = os.path.join(VERIF, "replays", "C07", re.sub(r"\W+", "_", nm)[:60] + ".json")
+            path = os.path.join(replays_dir("C07"), re.sub(r"\W+", "_", nm)[:60] + ".json")
             os.makedirs(os.path.dirname(path), exist_ok=True)
             json.dump({"query": nm, "model": model, "replay_cmd": "vcheck.py C07 --replay " + path}, open(path, "w"), indent=1)
             print("VIOLATION property=C07 replay=%s" % path)
@@ -947,6 +964,14 @@ def run_c07_full(prop, mir, log, tier):
         "solver_time_s": round(sol.solver_s, 2), "exhaustive": False,
     }
     return exit_code, cov
+
+
+def over_bound(j):
+    """a concrete native run that dies in the machine, needs more than its static bound, or more
+    cells than the machine allocated for it"""
+    return bool(j.get("panicked") or not j.get("ok", True) or (j["max_cells"] - j["io_cells"] > j["extra_cells"])
+                or (max(0, j["max_frames"] - j["io_frames"]) > j["extra_frames"])
+                or ("cap_bits" in j and j["cap_bits"] < j["max_cells"]))
 
 
 def replay_c07_family(mode, log, bad):
@@ -983,16 +1008,18 @@ def replay_c07(nm, model, log):
     """native reproduction of a bounds-arithmetic counterexample: a program family whose
     middle type has width >= 2^64 (saturated) realises the overflowing inputs"""
     if nm.startswith("L3"):
-        return replay_c07_family("limits_family", log,
-                                 lambda j: (not j.get("refused", False)) or j.get("panicked_before_exec", False))
+        r = replay_c07_family("limits_family", log,
+                              lambda j: (not j.get("refused", False)) or j.get("panicked_before_exec", False))
+        if r is True:
+            return r
+        return replay_c07_family("peaks_with_input", log, over_bound)
     m = re.match(r"^L2\.(\w+) ", nm)
-    if nm.startswith("L1."):
-        return replay_c07_family("peaks", log, lambda j: j.get("panicked") or (j["max_cells"] - j["io_cells"] > j["extra_cells"])
-                                 or (max(0, j["max_frames"] - j["io_frames"]) > j["extra_frames"]))
-    if m and "covers the interpreter" in nm:
-        # a bound that does not cover the run: look for it on the concrete program family
-        return replay_c07_family("peaks", log, lambda j: j.get("panicked") or (j["max_cells"] - j["io_cells"] > j["extra_cells"])
-                                 or (max(0, j["max_frames"] - j["io_frames"]) > j["extra_frames"]))
+    if nm.startswith("L1.") or (m and "covers the interpreter" in nm):
+        # a bound that does not cover the run: look for it on the concrete program families
+        r = replay_c07_family("peaks", log, over_bound)
+        if r is True:
+            return r
+        return replay_c07_family("peaks_with_input", log, over_bound)
     if not m or m.group(1) not in ("comp", "disconnect"):
         return "no native program family for %s" % nm
     res = {}
@@ -1236,7 +1263,8 @@ def run_c14(mir_text, log, tier):
         # distinct display names
         names = list(F["display"].values())
         if len(set(names)) != len(names):
-            raise Unsupported("%s: duplicate display names" % fam)
+            # two jets print the same name: K14.4 above is then satisfiable (one of them cannot parse back)
+            log("  %s: %d display names are shared by several jets" % (fam, len(names) - len(set(names))))
         F["outs"], F["stores"] = outs, stores
 
     # K14.3 Core vs Elements namesakes behind the prefix bit 0
@@ -1285,10 +1313,12 @@ def run_c14_full(prop, mir, log, tier):
             if len(rows) != len(F["variant"]):
                 mism += 1
                 log("  TABLE SIZE MISMATCH %s: MIR %d native %d" % (fam, len(F["variant"]), len(rows)))
-            byname = {r["name"]: r for r in rows}
+            byvariant = {r["variant"]: r for r in rows}
             for k, nm in F["display"].items():
                 validated += 1
-                r = byname.get(nm)
+                r = byvariant.get(F["variant"][k].split("::")[-1])
+                if r is not None and r["name"] != nm:
+                    r = None
                 n_, ln = F["enc"][k]
                 ok = r is not None and r["code"] == format(n_, "0%db" % ln) and r["decodes_back"]
                 if not ok:
@@ -1307,7 +1337,7 @@ def run_c14_full(prop, mir, log, tier):
             continue
         rp = replay_c14(nm, model, fams, log)
         if rp is True:
-            path = os.path.join(VERIF, "replays", "C14", re.sub(r"\W+", "_", nm)[:60] + ".json")
+            path = os.path.join(replays_dir("C14"), re.sub(r"\W+", "_", nm)[:60] + ".json")
             os.makedirs(os.path.dirname(path), exist_ok=True)
             json.dump({"query": nm, "model": model, "replay_cmd": "vcheck.py C14 --replay " + path}, open(path, "w"), indent=1)
             print("VIOLATION property=C14 replay=%s" % path)
@@ -1354,7 +1384,7 @@ def replay_c14(nm, model, fams, log):
     key = [k for k in ("dj", "dn", "dc") if k in model]
     if key:
         F = fams[fam if key[0] != "dc" else "Core"]
-        jet = F["display"].get(model[key[0]])
+        jet = F["variant"].get(model[key[0]], "?").split("::")[-1]
         r = native(["jet_check", fam if key[0] != "dc" else "Core", jet])
         log("  native check of %s: %s" % (jet, r))
         if "error" in r:
